@@ -1335,7 +1335,18 @@ class Interp:
         if isinstance(v, (tuple, list)):
             return list(v)
         if isinstance(v, frozenset):
-            return sorted(v, key=repr)
+            items = sorted(v, key=repr)
+            cur = self.engine.current
+            if (cur is not None and getattr(cur, "set_iteration_order", None) == "arbitrary" and 2 <= len(items) <= 3
+                    and not self.ctx.nofork):
+                # python iterates a set in an arbitrary order: every permutation is explored
+                import itertools
+                perms = list(itertools.permutations(items))
+                for p in perms[:-1]:
+                    if self.ctx.choose(f"set iteration order {p}"):
+                        return list(p)
+                return list(perms[-1])
+            return items
         if isinstance(v, VRef):
             h = self.ctx.deref(v)
             if isinstance(h, HList):
